@@ -4,6 +4,13 @@ Real glue objects: `Data` with `CategoricalComponent` / numeric `Component`s, th
 glue/core/roi.py, `roi_to_subset_state`, `Data.get_mask`.  All coordinates are dyadic rationals
 (exact in IEEE doubles); rotations are rational unit vectors (c, s), Python receives
 theta = atan2(s, c).  The Lean driver decides which elements lie in the boundary band.
+
+Categorical columns come in two forms: ["cat", l, ...] -- the category list handed to
+roi_to_subset_state is np.unique(...) of the component's categories, as the viewer states do -- and
+["catl", [c, ...], l, ...] -- the component is built with categories=[c, ...] (a custom order:
+reversed, rotated, any permutation, extra categories without elements) and roi_to_subset_state is
+handed component.categories, i.e. exactly this list in exactly this order (position i <-> c_i, which
+is also the element's plotted position component.codes); lists with duplicates are passed as given.
 """
 import itertools
 import math
@@ -73,9 +80,40 @@ def roi_kind(r):
     return {"range": "range", "circle": "circle", "ellipse": "ellipse", "poly": "poly", "cat": "catroi"}[r[0]]
 
 
+def col_head(col):
+    return col[:2] if col[0] == "catl" else col[:1]
+
+
+def col_vals(col):
+    return col[2:] if col[0] == "catl" else col[1:]
+
+
+def col_kind(col):
+    return "cat" if col[0] in ("cat", "catl") else "num"
+
+
+def col_order(col):
+    """kind of category order a column passes: None / sorted / unsorted / dup"""
+    if col[0] == "num":
+        return None
+    if col[0] == "cat":
+        return "sorted"
+    o = list(col[1])
+    if len(set(o)) != len(o):
+        return "dup"
+    return "sorted" if o == sorted(o) else "unsorted"
+
+
 def build_component(col):
     if col[0] == "cat":
         return CategoricalComponent(np.array([NAMES[l] for l in col[1:]]))
+    if col[0] == "catl":
+        order = [NAMES[l] for l in col[1]]
+        labels = np.array([NAMES[l] for l in col[2:]])
+        if len(set(order)) == len(order):
+            # custom category order: codes (= plotted positions) follow the list as given
+            return CategoricalComponent(labels, categories=np.array(order))
+        return CategoricalComponent(labels)
     return Component(np.array([float("nan") if v == "nan" else fl(v) for v in col[1:]], dtype=float))
 
 
@@ -108,10 +146,21 @@ class Sel(Family):
         roi = build_roi(roi_c)
 
         def cats(cid, col):
-            if col[0] != "cat":
+            if col[0] == "cat":
+                # as the viewer states do: np.unique(np.hstack([layer categories]))
+                return np.unique(np.hstack([d.get_data(cid).categories]))
+            if col[0] == "catl":
+                if col_order(col) == "dup":
+                    return np.array([NAMES[l] for l in col[1]])
+                # the component's own category list, in the order it was given
+                return d.get_component(cid).categories
+            return None
+
+        def codes(cid, col):
+            if col[0] == "num" or col_order(col) == "dup":
                 return None
-            # as the viewer states do: np.unique(np.hstack([layer categories]))
-            return np.unique(np.hstack([d.get_data(cid).categories]))
+            c = np.asarray(d.get_component(cid).codes)
+            return [int(v) if np.isfinite(v) and v == int(v) else -1 for v in c]
         xc, yc = cats(xid, xcol), cats(yid, ycol)
         try:
             state = S.roi_to_subset_state(roi, x_att=xid, y_att=yid, x_categories=xc, y_categories=yc,
@@ -123,11 +172,12 @@ class Sel(Family):
             state.pretransform = lambda x, y: (a * x + b * y + t, c * x + dd * y + u)
         m = d.get_mask(state)
         m = np.asarray(m)
-        if m.dtype != bool or m.shape != (len(xcol) - 1,):
+        if m.dtype != bool or m.shape != (len(col_vals(xcol)),):
             return ["bad-mask", str(m.dtype), list(m.shape)]
         att = {id(xid): "x", id(yid): "y"}
         return [None if xc is None else labels_to_ids(xc), None if yc is None else labels_to_ids(yc),
-                self.describe_state(state, att, roi_c, unQ(_eps) == 0), bits(m)]
+                self.describe_state(state, att, roi_c, unQ(_eps) == 0), bits(m),
+                [codes(xid, xcol), codes(yid, ycol)]]
 
     def describe_state(self, st, att, roi_c, exact):
         if isinstance(st, S.RangeSubsetState):
@@ -140,7 +190,8 @@ class Sel(Family):
             assert st.att1 is not None and att[id(st.att1)] == "x" and att[id(st.att2)] == "y"
             if not exact:
                 return ["Cat2D"]
-            return ["Cat2D", [[NAME_ID[str(k)], sorted(NAME_ID[str(x)] for x in v)] for k, v in st.categories.items()]]
+            # canonical form of the dict of sets: sorted keys, sorted values
+            return ["Cat2D", sorted([NAME_ID[str(k)], sorted(NAME_ID[str(x)] for x in v)] for k, v in st.categories.items())]
         if isinstance(st, S.CategoricalMultiRangeSubsetState):
             return ["CatMulti", att[id(st.cat_att)], att[id(st.num_att)]]
         if isinstance(st, S.RoiSubsetState):
@@ -156,26 +207,35 @@ class Sel(Family):
         return ["Other", type(st).__name__]
 
     def nontrivial(self, case, po):
-        return isinstance(po, list) and len(po) == 4 and "T" in po[3] and "F" in po[3][1:]
+        return isinstance(po, list) and len(po) == 5 and "T" in po[3] and "F" in po[3][1:]
 
     def signature(self, case, po, res):
         r = case[0]
-        return {"roi": roi_kind(r), "xk": case[1][0], "yk": case[2][0]}
+        orders = {col_order(case[1]), col_order(case[2])}
+        order = "dup" if "dup" in orders else "unsorted" if "unsorted" in orders else "sorted"
+        return {"roi": roi_kind(r), "xk": col_kind(case[1]), "yk": col_kind(case[2]), "order": order}
 
     def describe(self, case):
         return sx(case) if len(sx(case)) < 400 else sx(case)[:400] + "…"
 
     def shrink(self, case):
         roi_c, xcol, ycol, use_pre, pre, eps = case
-        n = len(xcol) - 1
+        xh, xv, yh, yv = col_head(xcol), col_vals(xcol), col_head(ycol), col_vals(ycol)
+        n = len(xv)
         if n > 1:
             h = n // 2
             for keep in (range(0, h), range(h, n)):
-                yield [roi_c, xcol[:1] + [xcol[1 + i] for i in keep], ycol[:1] + [ycol[1 + i] for i in keep], use_pre, pre, eps]
+                yield [roi_c, xh + [xv[i] for i in keep], yh + [yv[i] for i in keep], use_pre, pre, eps]
             if n <= 16:
                 for j in range(n):
                     keep = [i for i in range(n) if i != j]
-                    yield [roi_c, xcol[:1] + [xcol[1 + i] for i in keep], ycol[:1] + [ycol[1 + i] for i in keep], use_pre, pre, eps]
+                    yield [roi_c, xh + [xv[i] for i in keep], yh + [yv[i] for i in keep], use_pre, pre, eps]
+        # explicit category lists: drop a trailing category no remaining element uses (positions of
+        # the others are unchanged)
+        for which, (hd, vs) in enumerate(((xh, xv), (yh, yv))):
+            if hd[0] == "catl" and len(hd[1]) > 1 and hd[1][-1] not in vs:
+                nh = ["catl", hd[1][:-1]]
+                yield [roi_c, (nh + xv) if which == 0 else xcol, (nh + yv) if which == 1 else ycol, use_pre, pre, eps]
 
     # ---- generators ------------------------------------------------------------------------
     @staticmethod
@@ -195,6 +255,19 @@ class Sel(Family):
         return ["cat"] + list(labs)
 
     @staticmethod
+    def catlcol(order, labs):
+        """categorical column with an explicit category list (passed in exactly this order)"""
+        return ["catl", list(order)] + list(labs)
+
+    @staticmethod
+    def unsorted(order, rng):
+        """a permutation of `order` that is not the sorted one (when there is one)"""
+        order = list(order)
+        if len(order) > 1 and order == sorted(order):
+            order.reverse()
+        return order
+
+    @staticmethod
     def label_sets(k, rng, n_perm, all_perms):
         """label columns whose category set has size k: every order (or n_perm random ones),
         from different label pools"""
@@ -206,15 +279,19 @@ class Sel(Family):
             for p in perms:
                 yield list(p)
 
-    def product_elems(self, xk, yk, xlabs, ylabs, xvals, yvals):
+    def product_elems(self, xk, yk, xlabs, ylabs, xvals, yvals, xorder=None, yorder=None):
         """element columns: every category (in the given order, which fixes nothing but the storage
-        order) paired with every value / category of the other axis"""
+        order) paired with every value / category of the other axis; `xorder` / `yorder` = explicit
+        category list of that axis (passed to glue in that order)"""
         xs = xlabs if xk == "cat" else xvals
         ys = ylabs if yk == "cat" else yvals
         pairs = [(a, b) for a in xs for b in ys]
-        xcol = (self.catcol if xk == "cat" else self.numcol)([p[0] for p in pairs])
-        ycol = (self.catcol if yk == "cat" else self.numcol)([p[1] for p in pairs])
-        return xcol, ycol
+
+        def mk(kind, order, vals):
+            if kind != "cat":
+                return self.numcol(vals)
+            return self.catcol(vals) if order is None else self.catlcol(order, vals)
+        return mk(xk, xorder, [p[0] for p in pairs]), mk(yk, yorder, [p[1] for p in pairs])
 
     def case(self, roi, xcol, ycol, use_pre=False, pre=None, eps=0):
         return [roi, xcol, ycol, bool(use_pre), pre, Q(eps)]
@@ -266,6 +343,11 @@ class Sel(Family):
             cols = list(self.label_sets(k, rng, 6, k <= 3 or thorough))   # thorough: every order, k = 1..5
             for ci, labs in enumerate(cols):
                 col = labs + [labs[0]] + ([labs[-1]] if k > 1 else [])      # duplicates
+                # two of three unsorted permutations ARE the category list (custom order: every
+                # permutation for k <= 3(5), reversed + random ones beyond); otherwise the permutation
+                # is only the storage order and the list is np.unique(...) as in the viewers
+                explicit = labs != sorted(labs) and ci % 3 != 2
+                catcol_b = (lambda c, _o=list(labs): self.catlcol(_o, sorted(c))) if explicit else self.catcol
                 edges = H(Fr(-3, 2), k + Fr(1, 2)) + [Fr(1, 4), Fr(7, 8), k - Fr(3, 4)]
                 if ci >= 2 and not thorough:
                     edges = rng.sample(edges, min(len(edges), 5))
@@ -277,13 +359,14 @@ class Sel(Family):
                     for lo in edges:
                         for hi in edges:
                             if ori == "x":
-                                yield self.case(["range", ori, Q(lo), Q(hi)], self.catcol(col), self.numcol(ovals))
+                                yield self.case(["range", ori, Q(lo), Q(hi)], catcol_b(col), self.numcol(ovals))
                             else:
-                                yield self.case(["range", ori, Q(lo), Q(hi)], self.numcol(ovals), self.catcol(col))
+                                yield self.case(["range", ori, Q(lo), Q(hi)], self.numcol(ovals), catcol_b(col))
                     # other axis categorical as well, and the use_pretransform route (polygon path)
                     if ci < 2:
                         for lo, hi in rng.sample([(a, b) for a in edges for b in edges], 10):
-                            xcol, ycol = self.product_elems("cat", "cat", col, [0, 2], None, None)
+                            xcol, ycol = self.product_elems("cat", "cat", col, [0, 2], None, None,
+                                                            list(labs) if explicit else None, [2, 0] if explicit else None)
                             if ori == "y":
                                 xcol, ycol = ycol, xcol
                             yield self.case(["range", ori, Q(lo), Q(hi)], xcol, ycol)
@@ -292,10 +375,24 @@ class Sel(Family):
                             yield self.case(["range", ori, Q(lo), Q(hi)], xcol, ycol, True, None, EPS_FLOAT)
                             yv = [Fr(-1), Fr(1, 2), Fr(7, 4)]   # no NaN: see design.md (range + use_pretransform + categorical)
                             if ori == "x":
-                                xcol, ycol = self.product_elems("cat", "num", col, None, None, yv)
+                                xcol, ycol = self.product_elems("cat", "num", col, None, None, yv, list(labs) if explicit else None)
                             else:
-                                xcol, ycol = self.product_elems("num", "cat", None, col, yv, None)
+                                xcol, ycol = self.product_elems("num", "cat", None, col, yv, None, None, list(labs) if explicit else None)
                             yield self.case(["range", ori, Q(lo), Q(hi)], xcol, ycol, True, None, EPS_FLOAT)
+            # category lists that are not a permutation of the labels present: an extra category
+            # without elements in front (shifts every position) / at the end, and duplicated entries
+            for pool in ([list(range(k)), [1, 3, 4, 6, 8][:k]] if k > 1 else [[3]]):
+                base = self.unsorted(pool if k < 3 else pool[1:] + pool[:1], rng)      # rotated / reversed
+                extra = next(l for l in (7, 5, 2, 0) if l not in base)
+                orders = [[extra] + base, base + [extra], base + [base[0]], [base[-1]] + base]
+                for order in orders:
+                    n = len(order)
+                    edges = rng.sample(H(Fr(-3, 2), n + Fr(1, 2)), 4 if not thorough else 7)
+                    ovals = [Fr(i % 2) for i in range(len(base))]
+                    for lo in edges:
+                        for hi in edges:
+                            yield self.case(["range", "x", Q(lo), Q(hi)], self.catlcol(order, base), self.numcol(ovals))
+                            yield self.case(["range", "y", Q(lo), Q(hi)], self.numcol(ovals), self.catlcol(order, base))
         # ---------------- C. rectangles ----------------
         rots0 = [(1, 0), (-1, 0)]
         rots = [(0, 1), (0, -1), (Fr(3, 5), Fr(4, 5)), (Fr(4, 5), Fr(-3, 5)), (Fr(-5, 13), Fr(12, 13))]
@@ -303,11 +400,17 @@ class Sel(Family):
         kinds = [("cat", "cat"), ("cat", "num"), ("num", "cat"), ("num", "num")]
         for xk, yk in kinds:
             for kx, ky in ((3, 2), (1, 4), (4, 3)) if not thorough else ((3, 2), (1, 4), (4, 3), (5, 5), (2, 1)):
+                if xk == "num" and yk == "num" and (kx, ky) in ((3, 2), (1, 4)):
+                    continue        # no categorical axis: a sub-sweep of the (4, 3) one (same points)
                 xl = next(self.label_sets(kx, rng, 2, False))
                 yl = list(reversed(next(self.label_sets(ky, rng, 2, False))))
                 rng.shuffle(xl)
+                # custom category order (x: the shuffled list, y: reversed) except for (4, 3) / (2, 1),
+                # which keep the viewers' np.unique lists
+                explicit = (kx, ky) not in ((4, 3), (2, 1))
                 xcol, ycol = self.product_elems(xk, yk, xl, yl, fine if yk == "cat" else H(-1, 4, Fr(1, 2)) + [nan],
-                                                fine if xk == "cat" else H(-1, 4, Fr(1, 2)) + [nan])
+                                                fine if xk == "cat" else H(-1, 4, Fr(1, 2)) + [nan],
+                                                self.unsorted(xl, rng) if explicit else None, list(yl) if explicit else None)
                 xe = H(Fr(-1), kx + Fr(1, 2))
                 ye = [(Fr(-1, 2), Fr(3, 2)), (0, 1), (Fr(1, 4), Fr(7, 2)), (2, Fr(1, 2)), (1, 3)]
                 for c, s in rots0:
@@ -323,8 +426,9 @@ class Sel(Family):
                             yield self.case(roi, xcol, ycol, False, None, EPS_FLOAT)
         # ---------------- D. categorical regions ----------------
         for k in range(1, 6):
-            for labs in self.label_sets(k, rng, 4, k <= 3):
+            for di, labs in enumerate(self.label_sets(k, rng, 4, k <= 3)):
                 col = labs + labs[:1]
+                catcol_d = (lambda c, _o=list(labs): self.catlcol(_o, c)) if (labs != sorted(labs) and di % 2 == 1) else self.catcol
                 universe = sorted(set(labs)) + [l for l in (0, 2, 5, 8) if l not in labs][:2]
                 subsets = [list(c) for n in range(0, min(len(universe), 3) + 1) for c in itertools.combinations(universe, n)]
                 if not thorough and len(subsets) > 12:
@@ -333,15 +437,25 @@ class Sel(Family):
                     sub = list(sub)
                     rng.shuffle(sub)
                     sub = sub + sub[:1]             # duplicated label in the region
-                    yield self.case(["cat", sub], self.catcol(col), self.numcol([Fr(i) for i in range(len(col))]))
-                    yield self.case(["cat", sub], self.catcol(col), self.catcol([labs[0]] * len(col)))
+                    yield self.case(["cat", sub], catcol_d(col), self.numcol([Fr(i) for i in range(len(col))]))
+                    yield self.case(["cat", sub], catcol_d(col), self.catcol([labs[0]] * len(col)))
         # ---------------- E. polygon-like regions ----------------
         shapes = self.shapes()
         for xk, yk in kinds:
-            for kx, ky in ((3, 3), (5, 2), (1, 1)) if not thorough else ((3, 3), (5, 2), (1, 1), (4, 5), (2, 4)):
+            combos = [(3, 3, False), (5, 2, True), (1, 1, False), (3, 3, True), (3, 3, "dup")]
+            if thorough:
+                combos += [(4, 5, True), (2, 4, False), (5, 2, False)]
+            for kx, ky, explicit in combos:
+                if explicit and xk == "num" and yk == "num" and (kx, ky) == (3, 3):
+                    continue
                 xl = next(self.label_sets(kx, rng, 2, False))
                 yl = next(self.label_sets(ky, rng, 2, False))
                 rng.shuffle(yl)
+                # custom category order: x rotated (5) / reversed (3), y a non-sorted permutation
+                xorder = self.unsorted(xl[2:] + xl[:2] if kx > 3 else xl, rng) if explicit else None
+                yorder = self.unsorted(yl, rng) if explicit else None
+                if explicit == "dup":       # lists with duplicated entries: a label has two positions
+                    xorder, yorder = xorder + xorder[:1], yorder[:2] + yorder[1:]
                 step = Fr(1, 8) if thorough else Fr(1, 4)
                 off = Fr(1, 16)
                 xv = [v + off for v in H(Fr(-3, 2), kx + Fr(1, 2), step)] + H(-1, kx, 1) + [nan]
@@ -349,9 +463,9 @@ class Sel(Family):
                 if xk == "num" and yk == "num":
                     xv = H(Fr(-3, 2), kx + Fr(1, 2), Fr(1, 2)) + [Fr(1, 16), nan]
                     yv = H(Fr(-3, 2), ky + Fr(1, 2), Fr(1, 2)) + [Fr(5, 16), nan]
-                xcol, ycol = self.product_elems(xk, yk, xl, yl, xv, yv)
+                xcol, ycol = self.product_elems(xk, yk, xl, yl, xv, yv, xorder, yorder)
                 offs = H(Fr(-1, 2), Fr(3, 2)) if not thorough else H(-1, 3)
-                for shape in shapes:
+                for shape in (shapes if explicit != "dup" else shapes[::3]):
                     for dx in offs:
                         for dy in (offs if thorough else offs[::2] + [Fr(1, 4)]):
                             roi = self.translate(shape, dx, dy)
@@ -413,9 +527,23 @@ class Sel(Family):
                 c = [rng.choice(labs) for _ in range(n)]
                 return self.catcol(c)
             return self.numcol(["nan" if rng.random() < 0.05 else dy(-2, k + 1, den) + rng.choice([0, 0, Fr(1, 32)]) for _ in range(n)])
-        xcol, ycol = col(xk, xl, kx), col(yk, yl, ky)
-        kxe = len(set(xcol[1:])) if xk == "cat" else kx
-        kye = len(set(ycol[1:])) if yk == "cat" else ky
+        def relist(c):
+            """half of the categorical columns get an explicit category list: a random permutation
+            of the labels present, sometimes with extra categories, rarely with a duplicate"""
+            if c[0] != "cat" or rng.random() < 0.5:
+                return c
+            order = sorted(set(c[1:]))
+            if rng.random() < 0.3:
+                order += rng.sample([l for l in range(len(NAMES)) if l not in order], rng.randint(1, 2))
+            rng.shuffle(order)
+            if rng.random() < 0.1:
+                order.insert(rng.randrange(len(order) + 1), rng.choice(order))
+            return self.catlcol(order, c[1:])
+        xcol, ycol = relist(col(xk, xl, kx)), relist(col(yk, yl, ky))
+
+        def ncat(c, k):
+            return k if c[0] == "num" else len(c[1]) if c[0] == "catl" else len(set(c[1:]))
+        kxe, kye = ncat(xcol, kx), ncat(ycol, ky)
         t = rng.choice(["range", "rect0", "rectrot", "circle", "ellipse", "poly", "poly", "cat"])
         use_pre, pre = False, None
         if t == "range":
@@ -450,7 +578,7 @@ class Sel(Family):
         else:
             if xk != "cat":
                 xk = "cat"
-                xcol = col("cat", xl, kx)
+                xcol = relist(col("cat", xl, kx))
             roi = ["cat", [rng.randrange(len(NAMES)) for _ in range(rng.randint(0, 4))]]
         if xk == "num" and yk == "num" and t != "cat" and rng.random() < 0.25:
             use_pre = True
@@ -546,19 +674,44 @@ class Pli(Family):
 
 class FromRange(Family):
     """CategoricalROI.from_range + contains, exhaustively: category counts 1..6, bounds on every
-    quarter position, foreign labels."""
+    quarter position, foreign labels -- and the category list in EVERY order: all permutations of
+    1..4 (5) categories, reversed / rotated / random permutations beyond, lists with duplicated
+    entries; the position of a label is its index in the list as passed."""
     name = "frange"
     exhaustive = True
     batch = 1000
 
     def cases(self, tier, rng):
         K = 6 if tier == "quick" else 7
+        probe = list(range(len(NAMES)))
         for k in range(1, K + 1):
             for pool in ([1, 2, 3, 4, 5, 6, 7][:k], [0, 2, 3, 5, 6, 7, 8][:k]):
-                probe = list(range(len(NAMES)))
                 for lo4 in range(-6, 4 * k + 5):
                     for hi4 in range(-6, 4 * k + 5):
                         yield [pool, Q(Fr(lo4, 4)), Q(Fr(hi4, 4)), probe]
+        # every order of the list (half-step bounds: between and on the positions)
+        KP = 4 if tier == "quick" else 5
+        for k in range(2, K + 1):
+            pool = [0, 2, 3, 5, 6, 7, 8][:k] if k % 2 else [1, 2, 3, 4, 5, 6, 7][:k]
+            if k <= KP:
+                orders = [list(p) for p in itertools.permutations(pool)][1:]
+            else:
+                orders = [pool[::-1]] + [pool[i:] + pool[:i] for i in ((1, k - 1) if tier == "quick" else range(1, k))]
+                orders += [rng.sample(pool, k) for _ in range(3 if tier == "quick" else 40)]
+            # lists with duplicated entries (adjacent, far apart, everything twice)
+            dups = [pool[::-1] + [pool[-1]], pool[1:] + pool[:2]] + ([pool[::-1] + pool] if k <= 3 or tier != "quick" else [])
+            for order in orders + dups:
+                n = len(order)
+                for lo2 in range(-3, 2 * n + 3):
+                    for hi2 in range(-3, 2 * n + 3):
+                        yield [order, Q(Fr(lo2, 2)), Q(Fr(hi2, 2)), probe]
+        # non-integer bounds on permuted lists
+        for _ in range(400 if tier == "quick" else 5000):
+            k = rng.randint(2, 7)
+            order = rng.sample(range(len(NAMES)), k)
+            if rng.random() < 0.15:
+                order.insert(rng.randrange(k + 1), rng.choice(order))
+            yield [order, Q(Fr(rng.randint(-8, 4 * k + 8), 4)), Q(Fr(rng.randint(-8, 4 * k + 8), 4)), probe]
 
     def run_impl(self, case):
         cats, lo, hi, probe = case
@@ -569,11 +722,16 @@ class FromRange(Family):
     def nontrivial(self, case, po):
         return isinstance(po, list) and len(po[0]) > 0
 
+    def signature(self, case, po, res):
+        o = list(case[0])
+        return {"order": "dup" if len(set(o)) != len(o) else "sorted" if o == sorted(o) else "unsorted"}
+
 
 PROP = Property(
     id="C09",
     title="A drawn region becomes a selection of exactly the points the region contains",
-    theorems=["C09.range_numeric", "C09.from_range_positions", "C09.range_categorical", "C09.categorical_roi",
+    theorems=["C09.range_numeric", "C09.from_range_positions", "C09.range_categorical", "C09.from_range_unsorted",
+              "C09.from_range_any_list", "C09.contains_needs_sorted", "C09.categorical_roi",
               "C09.rect_categorical", "C09.polygon_cat_cat", "C09.polygonised_cat_num", "C09.polygon_cat_num", "C09.rect_rotated_cat_num",
               "C09.numeric_numeric", "C09.category_order_irrelevant", "C09.categories_ok", "C09.roi_selection",
               "C09.rect_categorical_rotated_witness"],
